@@ -31,11 +31,12 @@ type PathRule struct {
 	DeferID func(d *ssa.Defer) int
 	// RunDeferred: effect of a tracked deferred call when it runs at function exit.
 	RunDeferred func(pc *PathCtx, s uint64, d *ssa.Defer) uint64
-	// Inline: callee to analyse inline for this call (nil = opaque).
-	Inline func(call ssa.CallInstruction) *ssa.Function
+	// Inline: callees to analyse inline for this call (nil = opaque). Several callees (a dynamic
+	// call resolved to several literals) are explored as alternatives.
+	Inline func(call ssa.CallInstruction) []*ssa.Function
 	// Exit: called at every Return and Panic with the state after deferred calls ran.
 	Exit func(pc *PathCtx, s uint64, ins ssa.Instruction)
-	// MaxDepth of inlining (default 4).
+	// MaxDepth of inlining (default 10).
 	MaxDepth int
 }
 
@@ -116,7 +117,7 @@ func (c *Ctx) runPaths(fn *ssa.Function, init uint64, rule *PathRule, depth int,
 	pc := &PathCtx{c: c, rule: rule, fn: fn, par: map[pnode]pnode{}, notes: map[pnode][]string{}, depth: depth, stack: append(stack, fn), memo: memo}
 	maxDepth := rule.MaxDepth
 	if maxDepth == 0 {
-		maxDepth = 4
+		maxDepth = 10
 	}
 	// collect tracked defers in program order so that ids are stable
 	var tracked []*ssa.Defer
@@ -190,16 +191,18 @@ func (c *Ctx) runPaths(fn *ssa.Function, init uint64, rule *PathRule, depth int,
 					terminated = true
 				default:
 					if ci, ok := ins.(ssa.CallInstruction); ok && rule.Inline != nil && depth < maxDepth {
-						if callee := rule.Inline(ci); callee != nil && len(callee.Blocks) > 0 && !inStack(pc.stack, callee) {
-							if _, isGo := ins.(*ssa.Go); !isGo {
-								outs := c.runPaths(callee, s, rule, depth+1, pc.stack, memo)
-								for _, o := range outs {
-									o2 := o
-									if rule.Step != nil {
-										o2 = pc.stepAfterInline(o, ins)
-									}
-									next = append(next, run{o2, df})
+						if _, isGo := ins.(*ssa.Go); !isGo {
+							inlined := false
+							for _, callee := range rule.Inline(ci) {
+								if callee == nil || len(callee.Blocks) == 0 || inStack(pc.stack, callee) {
+									continue
 								}
+								inlined = true
+								for _, o := range c.runPaths(callee, s, rule, depth+1, pc.stack, memo) {
+									next = append(next, run{o, df})
+								}
+							}
+							if inlined {
 								continue
 							}
 						}
